@@ -48,6 +48,10 @@ fn root(i: usize) -> Bip32PrivateKey {
 enum KeyKind {
     Normal,
     Extended,
+    /// an extended key as Ed25519 itself defines it: the clamped SHA-512 expansion of a 32-byte seed,
+    /// here with the third-highest scalar bit SET (about half of all seeds give that; key generation
+    /// in this library and BIP32 derivation never do)
+    ExtendedExpanded,
     Bip32Raw,
 }
 
@@ -56,6 +60,18 @@ fn private_key(kind: KeyKind, seed: usize) -> PrivateKey {
         KeyKind::Normal => PrivateKey::from_normal_bytes(&seed_bytes(seed, 32)).unwrap(),
         KeyKind::Extended => PrivateKey::from_extended_bytes(&root(seed).derive(seed as u32).to_raw_key().as_bytes()).unwrap(),
         KeyKind::Bip32Raw => root(seed).derive(0x8000_0000 + seed as u32).derive(7).to_raw_key(),
+        KeyKind::ExtendedExpanded => {
+            use cryptoxide::digest::Digest;
+            let mut h = cryptoxide::sha2::Sha512::new();
+            // (a seed of its own: expanded from the seed of a Normal key it would BE that key)
+            h.input(&seed_bytes(seed + 16, 32));
+            let mut b = [0u8; 64];
+            h.result(&mut b);
+            b[0] &= 248;
+            b[31] &= 63;
+            b[31] |= 64 | 0x20;
+            PrivateKey::from_extended_bytes(&b).expect("harness: expanded extended key")
+        }
     }
 }
 
@@ -81,8 +97,8 @@ fn bech32_read(s: &str) -> Option<(String, Vec<u8>)> {
 // ---------------------------------------------------------------------------------------------
 
 fn sc_sign(ctx: &mut Ctx) {
-    let kinds = [KeyKind::Normal, KeyKind::Extended, KeyKind::Bip32Raw];
-    let kind = kinds[ctx.choose_free(3)];
+    let kinds = [KeyKind::Normal, KeyKind::Extended, KeyKind::Bip32Raw, KeyKind::ExtendedExpanded];
+    let kind = kinds[ctx.choose_free(kinds.len())];
     let seed = ctx.choose_free(3);
     let mi = ctx.choose_free(8);
     let sk = private_key(kind, seed);
@@ -279,7 +295,7 @@ fn sc_witness(ctx: &mut Ctx) {
     // (public key the witness must carry, its signature, name)
     let (want_pk, got_pk, sig, name): (Vec<u8>, Vec<u8>, Vec<u8>, &str) = match helper {
         0 | 1 | 2 => {
-            let sk = private_key([KeyKind::Normal, KeyKind::Extended, KeyKind::Bip32Raw][helper], seed);
+            let sk = private_key([KeyKind::Normal, KeyKind::Extended, KeyKind::Bip32Raw, KeyKind::ExtendedExpanded][helper], seed);
             let w = make_vkey_witness(&th, &sk);
             (sk.to_public().as_bytes(), w.vkey().public_key().as_bytes(), w.signature().to_bytes(), "make_vkey_witness")
         }
@@ -709,7 +725,7 @@ pub fn scenario(name: &str, tier: Tier) -> Option<BoxedScenario> {
 
 pub fn run(tier: Tier, seed: u64) -> i32 {
     let mut rep = Report::new(P, tier, seed);
-    rep.rule = "sign_verify: 3 key kinds (normal, extended, raw key of a BIP32 key) x 3 seeds x 8 messages (0,1,31,32,33,64,65,255 bytes): signature verifies under the wrapper and under cryptoxide directly, is deterministic, and is rejected for EVERY single-bit flip of the message, of the signature and of the public key, for a lengthened / shortened message and for every other key of the alphabet; every encoding (bytes, hex, Bech32) of signature, public and private key round-trips, the Bech32 string read independently has the expected human-readable part and payload, no decoder accepts another type's string, wrong lengths are refused. witness_helpers: make_vkey_witness x 3 key kinds, make_icarus_bootstrap_witness, make_daedalus_bootstrap_witness x 3 seeds x 4 hashes: public key, chain code and attributes are the key's / address's, the signature verifies over exactly the 32 hash bytes and over none of its 256 single-bit neighbours nor a transform. derivation: 4 roots (entropy 16/20/32 bytes, with/without passphrase; plus the same four imported as raw bytes with the third-highest scalar bit set - valid but not in generated form - at path length 0) x every path up to depth D over the index alphabet: each private step equals an independent implementation of BIP32-Ed25519 V2, each soft step commutes with to_public, each hardened step from a public key is refused; at the end of every path all encodings (bytes, hex, Bech32 xprv/xpub, 128-byte form incl. layout and wrong lengths), chain codes and a signature are checked. emip3: 4 passwords x 8 plaintext lengths (incl. 0) x 2 salt/nonce pairs: container layout, round trip, every other and near-miss password refused, every single-bit flip and every truncation of the container refused (thorough: for every case, containers over 80 bytes: salt, nonce, tag and the first and last 8 ciphertext bytes; quick: plaintexts of 1 and 2 bytes under two passwords), malformed arguments refused.".into();
+    rep.rule = "sign_verify: 4 key kinds (normal, extended, raw key of a BIP32 key, an extended key expanded from a seed with the third-highest scalar bit set) x 3 seeds x 8 messages (0,1,31,32,33,64,65,255 bytes): signature verifies under the wrapper and under cryptoxide directly, is deterministic, and is rejected for EVERY single-bit flip of the message, of the signature and of the public key, for a lengthened / shortened message and for every other key of the alphabet; every encoding (bytes, hex, Bech32) of signature, public and private key round-trips, the Bech32 string read independently has the expected human-readable part and payload, no decoder accepts another type's string, wrong lengths are refused. witness_helpers: make_vkey_witness x 3 key kinds, make_icarus_bootstrap_witness, make_daedalus_bootstrap_witness x 3 seeds x 4 hashes: public key, chain code and attributes are the key's / address's, the signature verifies over exactly the 32 hash bytes and over none of its 256 single-bit neighbours nor a transform. derivation: 4 roots (entropy 16/20/32 bytes, with/without passphrase; plus the same four imported as raw bytes with the third-highest scalar bit set - valid but not in generated form - at path length 0) x every path up to depth D over the index alphabet: each private step equals an independent implementation of BIP32-Ed25519 V2, each soft step commutes with to_public, each hardened step from a public key is refused; at the end of every path all encodings (bytes, hex, Bech32 xprv/xpub, 128-byte form incl. layout and wrong lengths), chain codes and a signature are checked. emip3: 4 passwords x 8 plaintext lengths (incl. 0) x 2 salt/nonce pairs: container layout, round trip, every other and near-miss password refused, every single-bit flip and every truncation of the container refused (thorough: for every case, containers over 80 bytes: salt, nonce, tag and the first and last 8 ciphertext bytes; quick: plaintexts of 1 and 2 bytes under two passwords), malformed arguments refused.".into();
     rep.assume("randomly generated keys (generate_ed25519*) are outside a deterministic enumeration; keys come from seeds, as in the property's quantifier");
     rep.assume("Ed25519, HMAC-SHA512, PBKDF2 and ChaCha20-Poly1305 themselves (cryptoxide) are trusted; the property is about the library's use of them");
     rep.trusted_base = vec!["cryptoxide (ed25519 verify, extended_to_public, hmac, sha2)".into(), "bech32 crate (independent reading of encoded strings)".into(), "BIP32-Ed25519 specification as transcribed in props/c12.rs::ref_derive_private".into()];
